@@ -5,7 +5,7 @@ import json, shutil, sys
 from pathlib import Path
 
 VERIF = Path(__file__).resolve().parent.parent
-SRC = Path("/tmp/seed/out")
+SRCS = [Path(p) for p in ("/tmp/seed/out", "/tmp/seed/out2", "/tmp/seed/out3", "/tmp/seed/out4")]
 
 results = {}
 for f in sys.argv[1:]:
@@ -21,6 +21,10 @@ for seed, r in sorted(results.items()):
     ok = r.get("applies") and r.get("tests_pass") and r.get("demo_fails_with") and r.get("demo_passes_without")
     if not ok:
         print("skipping (not confirmed):", seed, {k: r.get(k) for k in ("applies", "tests_pass", "demo_fails_with", "demo_passes_without")})
+        continue
+    SRC = next((p for p in SRCS if (p / seed / "patch.diff").exists()), None)
+    if SRC is None:
+        print("skipping (source not found):", seed)
         continue
     d = VERIF / "seeded" / seed
     d.mkdir(parents=True, exist_ok=True)
